@@ -6,6 +6,9 @@ Inductive qop := QSend (m : msg) (active : bool) | QFlush.
 Inductive case :=
 | CMsg (m : msg) (impl_inner : bytes) (impl_dec : res cerr msg)
 | CFrame (f : list msg) (impl_inner : bytes) (impl_dec : res cerr (list msg))
+(* damaged encodings handed to the decoders *)
+| CRawMsg (inner : bytes) (impl_dec : res cerr msg)
+| CRawFrame (inner : bytes) (impl_dec : res cerr (list msg))
 | CId (ssid : list N) (now : Z) (seq unique : N) (impl_id : bytes) (impl_ssid : list N) (impl_contract : N) (impl_time : Z)
 | CIdTime (before : bytes) (t : Z) (after : bytes) (impl_time : Z)
 | CIdOrder (a b : bytes)
@@ -74,12 +77,23 @@ Definition stress_ok (pubs per : N) (seq : list (N * N)) : bool :=
   | None => false
   end.
 
+(* DecodeFrame: the announced count is bounded by a quarter of the payload before decoding *)
+Definition dec_frame_guarded19 (d : bytes) : res cerr (list msg) :=
+  match read_uvarint d with
+  | Ok (n, _) => if len d / 4 <? n then Err CEOF else dec_frame d
+  | _ => dec_frame d
+  end.
+
 Definition check (c : case) : N :=
   match c with
   | CMsg m inner d =>
     bit (bytes_eqb (enc_msg m) inner) 1
     |+| bit (cres_eqb msg_eqb (match dec_msg inner with Ok (x, _) => Ok x | Err e => Err e | Panic => Panic end) d) 1
     |+| bit (cres_eqb msg_eqb d (Ok m)) 2                 (* oracle: survives encode/decode unchanged *)
+  | CRawMsg inner d =>
+    bit (cres_eqb msg_eqb (match dec_msg inner with Ok (x, _) => Ok x | Err e => Err e | Panic => Panic end) d) 1
+  | CRawFrame inner d =>
+    bit (cres_eqb frame_eqb (dec_frame_guarded19 inner) d) 1
   | CFrame f inner d =>
     bit (bytes_eqb (enc_frame f) inner) 1
     |+| bit (cres_eqb frame_eqb (dec_frame inner) d) 1
